@@ -125,16 +125,16 @@ type suiteDef struct {
 }
 
 type world struct {
-	loader     ld.DocumentLoader
-	suites     []*suiteDef
-	keys       []*keyInfo
-	canonAtoms map[string]int
-	sigs       map[string]sigInfo
-	rec        *recording
-	badFetch   map[string]*keyInfo // key id -> key handed out instead (key substitution)
-	tick       int
-	di         *diWorld
-	diExpect   [3]string // purpose, domain, challenge the verifier expects of a Data Integrity proof
+	loader         ld.DocumentLoader
+	suites         []*suiteDef
+	keys           []*keyInfo
+	canonAtoms     map[string]int
+	sigs           map[string]sigInfo
+	rec            *recording
+	badFetch       map[string]*keyInfo // key id -> key handed out instead (key substitution)
+	tick           int
+	di             *diWorld
+	diExpect       [3]string // purpose, domain, challenge the verifier expects of a Data Integrity proof
 	lastDIVerifies []diVerify
 	suiteSubset    []string               // when set: the verifier is configured with the suites of these proof types only
 	jwtKey         *keyInfo               // issuer key of the JWT credentials embedded in presentations
@@ -151,9 +151,9 @@ func (s *suiteDef) GetCanonicalDocument(doc map[string]interface{}, opts ...proc
 }
 
 func (s *suiteDef) GetDigest(doc []byte) []byte { return s.inner.GetDigest(doc) }
-func (s *suiteDef) Accept(t string) bool         { return s.inner.Accept(t) }
-func (s *suiteDef) CompactProof() bool           { return s.inner.CompactProof() }
-func (s *suiteDef) Alg() string                  { return s.cur.signer.Alg() }
+func (s *suiteDef) Accept(t string) bool        { return s.inner.Accept(t) }
+func (s *suiteDef) CompactProof() bool          { return s.inner.CompactProof() }
+func (s *suiteDef) Alg() string                 { return s.cur.signer.Alg() }
 
 func (s *suiteDef) Sign(message []byte) ([]byte, error) {
 	sig, err := s.cur.signer.Sign(message)
@@ -552,47 +552,17 @@ func (w *world) verifyParsed(kind string, b []byte, strict bool) (verdict, *reco
 		parsed map[string]interface{}
 	)
 
-	if kind == "vc" {
-		opts := []verifiable.CredentialOpt{verifiable.WithJSONLDDocumentLoader(w.loader),
-			verifiable.WithEmbeddedSignatureSuites(w.verifierSuites()...), verifiable.WithPublicKeyFetcher(w.fetch),
-			verifiable.WithDataIntegrityVerifier(w.di.verifier)}
-		if w.diExpect != [3]string{} {
-			opts = append(opts, verifiable.WithExpectedDataIntegrityFields(w.diExpect[0], w.diExpect[1], w.diExpect[2]))
-		}
-
-		if strict {
-			opts = append(opts, verifiable.WithStrictValidation())
-		}
-
-		var vc *verifiable.Credential
-
-		vc, err = verifiable.ParseCredential(b, opts...)
-		if err == nil {
-			if pb, e := vc.MarshalJSON(); e == nil {
-				parsed = mustParse(pb)
+	// a panic inside the parser is C03's subject (no untrusted input may crash): here it counts as a refusal
+	func() {
+		defer func() {
+			if p := recover(); p != nil {
+				err = fmt.Errorf("panic: %v", p)
+				parsed = nil
 			}
-		}
-	} else {
-		opts := []verifiable.PresentationOpt{verifiable.WithPresJSONLDDocumentLoader(w.loader),
-			verifiable.WithPresEmbeddedSignatureSuites(w.verifierSuites()...), verifiable.WithPresPublicKeyFetcher(w.fetch),
-			verifiable.WithPresDataIntegrityVerifier(w.di.verifier)}
-		if w.diExpect != [3]string{} {
-			opts = append(opts, verifiable.WithPresExpectedDataIntegrityFields(w.diExpect[0], w.diExpect[1], w.diExpect[2]))
-		}
+		}()
 
-		if strict {
-			opts = append(opts, verifiable.WithPresStrictValidation())
-		}
-
-		var vp *verifiable.Presentation
-
-		vp, err = verifiable.ParsePresentation(b, opts...)
-		if err == nil {
-			if pb, e := vp.MarshalJSON(); e == nil {
-				parsed = mustParse(pb)
-			}
-		}
-	}
+		err, parsed = w.parseReal(kind, b, strict)
+	}()
 
 	v := verdict{Accepted: err == nil, ProofPass: !proofStageError(kind, err), Calls: len(w.rec.verifies)}
 	if err != nil {
@@ -799,6 +769,7 @@ type caseDesc struct {
 	Ops      []op                     `json:"ops,omitempty"`
 	JWTCreds []map[string]interface{} `json:"jwt_credentials,omitempty"`
 	SpareJWT map[string]interface{}   `json:"spare_jwt,omitempty"`
+	Envelope string                   `json:"envelope,omitempty"` // a JWT envelope case: all envelope variants of the document are re-run
 }
 
 type observed struct {
@@ -914,7 +885,7 @@ func (w *world) runCase(tr *hx.Trace, gen string, cd caseDesc, doc map[string]in
 			strict = w.strictInfo(doc)
 		}
 
-		r.Coq = fmt.Sprintf("K %s %s %s %s %s", w.coqEnv(nd, rec), coqObj(nd), coqOutcome(vd), strict, coqParsed(cd.Kind, byteOrder, doc, parsed))
+		r.Coq = fmt.Sprintf("K %s %s %s %s %s None", w.coqEnv(nd, rec), coqObj(nd), coqOutcome(vd), strict, coqParsed(cd.Kind, byteOrder, doc, parsed))
 	}
 
 	out := "rej"
@@ -980,7 +951,7 @@ func main() {
 		}
 	}
 
-	nDocs, coqBudget, leafCap := 32, 1400, 36
+	nDocs, coqBudget, leafCap := 28, 1300, 30
 	if args.Tier == "thorough" {
 		nDocs, coqBudget, leafCap = 250, 12000, 120
 	}
@@ -1033,6 +1004,8 @@ func main() {
 
 		w.badFetch = map[string]*keyInfo{}
 		w.suiteSubset = nil
+
+		w.runEnvelopes(tr, kind, sd, signed, args.Seed, i)
 	}
 }
 
@@ -1217,4 +1190,68 @@ func coqParsed(kind string, order []string, doc, parsed map[string]interface{}) 
 	}
 
 	return hx.CoqList(out)
+}
+
+// objOrNil parses a re-serialised object (a document that arrived as JWS is re-serialised as the JWS string: nil).
+func objOrNil(b []byte) map[string]interface{} {
+	v, err := parseJSON(b)
+	if err != nil {
+		return nil
+	}
+
+	m, _ := v.(map[string]interface{})
+
+	return m
+}
+
+// parseReal hands the bytes to the real entry point.
+func (w *world) parseReal(kind string, b []byte, strict bool) (error, map[string]interface{}) { //nolint:revive
+	var (
+		err    error
+		parsed map[string]interface{}
+	)
+
+	if kind == "vc" {
+		opts := []verifiable.CredentialOpt{verifiable.WithJSONLDDocumentLoader(w.loader),
+			verifiable.WithEmbeddedSignatureSuites(w.verifierSuites()...), verifiable.WithPublicKeyFetcher(w.fetch),
+			verifiable.WithDataIntegrityVerifier(w.di.verifier)}
+		if w.diExpect != [3]string{} {
+			opts = append(opts, verifiable.WithExpectedDataIntegrityFields(w.diExpect[0], w.diExpect[1], w.diExpect[2]))
+		}
+
+		if strict {
+			opts = append(opts, verifiable.WithStrictValidation())
+		}
+
+		var vc *verifiable.Credential
+
+		vc, err = verifiable.ParseCredential(b, opts...)
+		if err == nil {
+			if pb, e := vc.MarshalJSON(); e == nil {
+				parsed = objOrNil(pb)
+			}
+		}
+	} else {
+		opts := []verifiable.PresentationOpt{verifiable.WithPresJSONLDDocumentLoader(w.loader),
+			verifiable.WithPresEmbeddedSignatureSuites(w.verifierSuites()...), verifiable.WithPresPublicKeyFetcher(w.fetch),
+			verifiable.WithPresDataIntegrityVerifier(w.di.verifier)}
+		if w.diExpect != [3]string{} {
+			opts = append(opts, verifiable.WithPresExpectedDataIntegrityFields(w.diExpect[0], w.diExpect[1], w.diExpect[2]))
+		}
+
+		if strict {
+			opts = append(opts, verifiable.WithPresStrictValidation())
+		}
+
+		var vp *verifiable.Presentation
+
+		vp, err = verifiable.ParsePresentation(b, opts...)
+		if err == nil {
+			if pb, e := vp.MarshalJSON(); e == nil {
+				parsed = objOrNil(pb)
+			}
+		}
+	}
+
+	return err, parsed
 }
